@@ -11,37 +11,10 @@ def claim(pid, category, text, note, technique, design_ref):
     CHECKS[pid] = dict(category=category, text=text, note=note, technique=technique, design_ref=design_ref)
 
 
-claim('C15', 'proof',
-      'Coq theorem C15_decode_length_prefix: for every identifier-octet string, every definite length-octet string '
-      '(short/long, minimal or padded), every contents, tail and every prefix length the length probe returns the '
-      'total length iff the header is complete and None otherwise. Model tied to ber.py by a differential run of '
-      'decode_full_length/encode_tag/encode_length_definite on generated headers, and the property itself is '
-      'executed on /repo (decode_with_length on msg+tail, decode_length on every prefix).',
-      'Trusted: Coq kernel + vm_compute; hand-written model Ber/Header.v (correspondence is sampled); '
-      'decode_with_length over whole types is checked on /repo by the property test and proved for the modelled '
-      'DER/BER universe only where Props/C15.v says so.',
-      'Coq proof over hand-written model + differential correspondence', 'DESIGN.md section 6 C15')
-
-claim('C05', 'proof',
-      'Coq theorems about the executable UPER implementation model (Per/UperImpl.v, the whole type-directed codec incl. '
-      'extension additions, groups, CHOICE additions, 16K fragmentation): the X.691 n-bit field and length determinant '
-      'round-trip for every value and continuation (Props/C05.v), with the model tied to per.py/uper.py on every run by '
-      'comparing complete encodings and decodings of generated (module, type, value) cases bit for bit.',
-      'Hand-written model, correspondence is sampled (generator histogram in the evidence). Whole-type refinement to a '
-      'separate X.691 specification model is OPEN; aligned PER is covered by property tests only (no model yet). Known '
-      'deviations of the code from X.691 are recorded in known_findings/C05.json and the generator stays out of them.',
-      'Coq proof over hand-written model + differential correspondence', 'DESIGN.md section 6 C05')
-
-claim('C18', 'proof',
-      'machine-checked: (a) no function reachable at encode/decode/check time writes to a compiled object, module/class '
-      'state or a caller\'s value - finite statement over the write-set table regenerated from /repo\'s ast on every run; '
-      '(b) for every history and every interleaving of threads whose steps respect that table, shared state is unchanged '
-      'and each call returns what it returns alone on a fresh copy (unbounded, induction over step lists / merges)',
-      'the table\'s completeness is the translator\'s (fail-closed, trusted) and is validated at run time by a structural '
-      'fingerprint of all shared state after every call; thread schedules are explored (2-8 threads, randomised switch '
-      'interval), not enumerated; one known finding (structured DEFAULT aliased into decode results, only through compile_dict)',
-      'Coq proof over an abstract shared/call-local heap + regenerated write-set table (Python-ast abstract interpretation) '
-      '+ differential histories on /repo', 'DESIGN.md section 6 C18')
+for fn in sorted(os.listdir(os.path.join(HERE, 'claims'))):
+    if fn.endswith('.json'):
+        c = json.load(open(os.path.join(HERE, 'claims', fn)))
+        claim(fn[:-5], c['category'], c['text'], c['note'], c['technique'], c['design_ref'])
 
 ALL = ['C%02d' % i for i in range(1, 21)]
 for p in ALL:
